@@ -40,7 +40,7 @@ SHARDS = {"quick": 16, "thorough": 16}
 EXHAUSTIVE = {"quick": True, "thorough": True}
 
 CFG = {"input": "UNMATCHED_INSTANCE", "matcher": {"kind": "naive", "metric": "IOU", "thr": 0.5}, "metrics": ["DSC", "IOU", "RVD"], "global": ["DSC"]}
-NAMES = ["s0", "s1", "s2", "s3", "s4", "s5"]
+NAMES = ["s0", "s1", "s2", "s3", "s4", "s5", "subject_name"]
 STATES = ["absent", "empty", "header_only", "header_rows"]
 VARIANTS = ["plain", "graceful", "threads", "noext", "depth2"]
 
